@@ -79,7 +79,7 @@ func (dec *propertiesDecoder) applyProperty(context Context, properties *propert
 	if len(propertyComments) > 0 {
 		err := dec.applyPropertyComments(context, path, propertyComments)
 		if err != nil {
-			return nil
+			return err
 		}
 	}
 
